@@ -1474,7 +1474,12 @@ SNIPS_ON = True
 # glued to the end of the preceding element's line and its children, one level deeper, then read as children of that
 # element (`div (note)\n\tspan `) while the HTML output has them as siblings: a finding on the clean tree, reported, not
 # listed.  Everything else (own line, depth, head of every element) is judged on these trees too.
-SNIP_TREE_CLAUSE_WHEN_TEXT_PARENT_FOLLOWS_ELEMENT = False
+SNIP_TREE_CLAUSE_WHEN_TEXT_PARENT_FOLLOWS_ELEMENT = True   # listed finding C15:text-only-parent-after-an-element
+
+
+class ListedVerdict(str):
+    """an oracle verdict that belongs to a listed finding class (markup_util.run_cases uses .key as the failure key)"""
+    key = 'C15:text-only-parent-after-an-element'
 # configuration snippets: key -> text of the text-only node it resolves to (snippet body `{text}`)
 TEXT_SNIPPETS = {'note': '(note)', 'todo': '[x] done', 'sep': '~ sep ~', 'cmt': '<!-- c -->', 'two': '(a)\n(bb)',
                  'three': '[1]\r\n[22]\n[333]', 'fill': '(${1:fill})', 'stop': '(${0})', 'word': 'NOTE', 'w2': 'see below'}
@@ -1585,6 +1590,7 @@ def oracle_snip(abbr, cfg, meta, r):
             return 'the line of element %r at depth %d is %r, it does not start with the denoted head %r' % (nm, d, line, head)
     if meta['snip'].get('follows') and not SNIP_TREE_CLAUSE_WHEN_TEXT_PARENT_FOLLOWS_ELEMENT:
         return None
+    listed = bool(meta['snip'].get('follows'))
     # element tree read off the indentation (parent = nearest element line above with a smaller indentation)
     stack, itree = [], []
     for d, nm, _ in got:
@@ -1593,7 +1599,8 @@ def oracle_snip(abbr, cfg, meta, r):
         itree.append((len(stack), nm))
         stack.append(d)
     if itree != [tuple(x) for x in meta['snip']['etree']]:
-        return 'element tree read off the indentation %r differs from the element tree of the abbreviation %r' % (itree[:12], meta['snip']['etree'][:12])
+        msg = 'element tree read off the indentation %r differs from the element tree of the abbreviation %r' % (itree[:12], meta['snip']['etree'][:12])
+        return ListedVerdict(msg) if listed else msg
     hcfg = {'syntax': 'html', 'options': {'output.indent': indent, 'output.selfClosingStyle': 'xhtml'}, 'snippets': dict(cfg.get('snippets') or {})}
     h = impl_expand(abbr, hcfg)
     if h[0] != 'ok':
@@ -1602,7 +1609,8 @@ def oracle_snip(abbr, cfg, meta, r):
     if depth != 0:
         return 'unbalanced tags in HTML output %r' % h[1]
     if itree != htree:
-        return 'element tree read off the indentation %r differs from the tree of the HTML output %r' % (itree[:12], htree[:12])
+        msg = 'element tree read off the indentation %r differs from the tree of the HTML output %r' % (itree[:12], htree[:12])
+        return ListedVerdict(msg) if listed else msg
     return None
 
 
